@@ -30,17 +30,20 @@ def split(cargo_ver: str) -> T.Iterable[tuple[str, str]]:
         return
     for ver in cargo_ver.split(','):
         ver = ver.strip()
-        if ver == '*':
+        if ver in {'*', 'x', 'X'}:
             continue
 
         if ver.startswith(('>=', '<=', '!=')):
             yield ver[0:2], ver[2:].lstrip()
         elif ver.startswith(('~', '=', '^', '>', '<')):
             yield ver[0], ver[1:].lstrip()
-        elif ver.endswith('.*'):
-            # asterisk requirements are same as tilde: 1.* == ~1
+        elif ver.endswith(('.*', '.x', '.X')):
+            # asterisk requirements are same as tilde: 1.* == ~1, 1.*.* == ~1
+            # (the semver crate reads 'x' and 'X' like '*')
             # https://doc.rust-lang.org/cargo/reference/specifying-dependencies.html#wildcard-requirements
-            yield '~', ver[:-2].lstrip()
+            while ver.endswith(('.*', '.x', '.X')):
+                ver = ver[:-2]
+            yield '~', ver.lstrip()
         else:
             # caret requirement is the default strategy
             yield '^', ver
